@@ -1533,6 +1533,9 @@ pub fn main(tier: Tier) -> i32 {
         }
         let (min, m) = minimise(&r.family, r.validate);
         let src = source(&min);
+        // the smallest failing member of the family may fail on the other clock (fewer ticks,
+        // still too many allocations): the replay file records what IT does
+        let class = failure_class(&m);
         let doc = json!({
             "property": "C20", "seed": seed, "run": r.index, "failure_class": class, "trigger": trigger,
             "family": min, "validate": r.validate, "source": src,
